@@ -162,7 +162,19 @@ def handle (line : Json) : Json :=
     | .rejected .invalidAssertionCount => r.assertions.isEmpty
     | .noIdentity => r.assertions.isEmpty
     | _ => false
-  let statusOk : Bool :=
+  -- independent of the regenerated table's contents: the exception classes are NAMED after the codes
+  -- (constant STATUS_AUTHN_FAILED ↦ StatusAuthnFailed; lemma C06_table_names proves it of the table as it should be)
+  let stPrefix := "urn:oasis:names:tc:SAML:2.0:status:"
+  let camelOf (c : String) : String :=     -- STATUS_NO_SUPPORTED_IDP ↦ StatusNoSupportedIdp
+    String.join ((c.splitOn "_").map (fun w => (w.take 1).toString.toUpper ++ (w.drop 1).toString.toLower))
+  let byRule : Option String := match r.statusSecond with
+    | some s2 => if s2.startsWith stPrefix then
+        (Gen.StatusCodes.table.find? (fun row => row.2.1 == s2)).map (fun row => camelOf row.1) else none
+    | none => none
+  let ruleOk : Bool := match byRule, m with
+    | some cls, .rejected (.status _) => !statusOnly || strD impl "r" != "rejected" || implErr == cls
+    | _, _ => true
+  let statusOk : Bool := ruleOk &&
     (!(strD impl "r" == "rejected" && implErr.startsWith "Status") || implErr == statusClass r.statusSecond) &&
     (match m with
      | .rejected (.status s) => strD impl "r" == "rejected" && (implErr == statusClass s || !statusOnly)
